@@ -31,7 +31,8 @@ U == <<
   L(1, "ELECTRICIDAD", "RED", "SUMINISTRO", "A"),
   LV(<<102, 0, 0>>, "ELECTRICIDAD", "INSITU", "SUMINISTRO", "A"),
   L(3, "ELECTRICIDAD", "INSITU", "A_RED", "A"),
-  L(4, "ELECTRICIDAD", "INSITU", "A_NEPB", "B"),
+  \* a user factor that is all zeros ("no credit for exports to non-EPB uses"): it is a value, not an absent factor
+  LV(<<0, 0, 0>>, "ELECTRICIDAD", "INSITU", "A_NEPB", "B"),
   L(5, "ELECTRICIDAD", "COGEN", "A_RED", "A"),
   LV(<<1000, 0, 306>>, "EAMBIENTE", "RED", "SUMINISTRO", "A"),
   L(7, "EAMBIENTE", "INSITU", "A_RED", "A"),
@@ -46,7 +47,8 @@ U == <<
   LV(<<1000, 215, 0>>, "EAMBIENTE", "INSITU", "SUMINISTRO", "A"),
   L(16, "EAMBIENTE", "INSITU", "A_NEPB", "B") >>
 UserRed1 == <<501, 601, 701>>
-UserRed2 == <<502, 602, 702>>
+\* (the user may declare a network without any primary energy: zeros are a value too)
+UserRed2 == <<0, 0, 0>>
 \* a second line with the key of line 9 and another value: the first one must win
 Dup == Fac("GASNATURAL", "RED", "SUMINISTRO", "A", <<901, 902, 903>>)
 
